@@ -23,19 +23,19 @@ package keeper
 //@   ensures SUMB(F, d, m) >= BALF(F, a, d, m) && BALF(F, a, d, m) >= 0
 //@ define inv(d, m) = SUMB(balances, d, m) == SUP(d, m)
 
-//@ func Keeper.GetBalance
+//@ func Keeper.GetBalance(ctx, denomID, mtID, addr)
 //@   property C15
 //@   returns r
 //@   ensures value: r == BAL(addr, denomID, mtID)
 //@ end
 
-//@ func Keeper.GetMTSupply
+//@ func Keeper.GetMTSupply(ctx, denomID, mtID)
 //@   property C15
 //@   returns r
 //@   ensures value: r == SUP(denomID, mtID)
 //@ end
 
-//@ func Keeper.AddBalance
+//@ func Keeper.AddBalance(ctx, denomID, mtID, amount, addr)
 //@   property C15
 //@   returns err
 //@   let b0 = BAL(addr, denomID, mtID)
@@ -47,7 +47,7 @@ package keeper
 // SubBalance has no guard of its own: its callers must have established that the balance covers the amount.
 // (C12 too: a balance that reaches zero stays recorded as zero - export lists it, and genesis validation requires every
 // token of a class to appear among the owners' balances)
-//@ func Keeper.SubBalance
+//@ func Keeper.SubBalance(ctx, denomID, mtID, amount, addr)
 //@   property C12, C15
 //@   requires BAL(addr, denomID, mtID) >= amount
 //@   let b0 = BAL(addr, denomID, mtID)
@@ -55,7 +55,7 @@ package keeper
 //@   ensures sub: balances == set(old(balances), addr, denomID, mtID, b0 - amount)
 //@ end
 
-//@ func Keeper.IncreaseMTSupply
+//@ func Keeper.IncreaseMTSupply(ctx, denomID, mtID, amount)
 //@   property C15
 //@   returns err
 //@   let s0 = SUP(denomID, mtID)
@@ -64,7 +64,7 @@ package keeper
 //@   ensures fail: err != nil ==> s0 + amount > MAXU64 && supplies == old(supplies)
 //@ end
 
-//@ func Keeper.decreaseMTSupply
+//@ func Keeper.decreaseMTSupply(ctx, denomID, mtID, amount)
 //@   property C15
 //@   requires SUP(denomID, mtID) >= amount
 //@   let s0 = SUP(denomID, mtID)
@@ -72,7 +72,7 @@ package keeper
 //@   ensures sub: supplies == set(old(supplies), denomID, mtID, s0 - amount)
 //@ end
 
-//@ func Keeper.Transfer
+//@ func Keeper.Transfer(ctx, denomID, mtID, amount, from, to)
 //@   property C15
 //@   returns err
 //@   requires BAL(from, denomID, mtID) >= amount
@@ -88,7 +88,7 @@ package keeper
 //@   ensures never_overflows: err == nil
 //@ end
 
-//@ func Keeper.TransferOwner
+//@ func Keeper.TransferOwner(ctx, denomID, mtID, amount, srcOwner, dstOwner)
 //@   property C15
 //@   returns err
 //@   requires inv(denomID, mtID) && SUP(denomID, mtID) <= MAXU64
@@ -104,7 +104,7 @@ package keeper
 //@   ensures rejected: BALF(F0, srcOwner, denomID, mtID) < amount ==> err != nil
 //@ end
 
-//@ func Keeper.BurnMT
+//@ func Keeper.BurnMT(ctx, denomID, mtID, amount, owner)
 //@   property C15
 //@   returns err
 //@   requires inv(denomID, mtID)
@@ -120,7 +120,7 @@ package keeper
 //@   ensures rejected: b0 < amount ==> err != nil && balances == F0 && supplies == old(supplies)
 //@ end
 
-//@ func Keeper.MintMT
+//@ func Keeper.MintMT(ctx, denomID, mtID, amount, recipient)
 //@   property C15
 //@   returns err
 //@   requires inv(denomID, mtID)
@@ -136,7 +136,7 @@ package keeper
 //@   ensures overflow_rejected: s0 + amount > MAXU64 ==> err != nil
 //@ end
 
-//@ func Keeper.Authorize
+//@ func Keeper.Authorize(ctx, denomID, owner)
 //@   property C15
 //@   returns err
 //@   ensures owner_only: err == nil ==> has(denoms, denomID) && bech(owner) == get(denoms, denomID).Owner
@@ -148,7 +148,7 @@ package keeper
 //@ define DSEQ = ite(has(denomSeq), get(denomSeq), 1)
 //@ define MSEQ = ite(has(mtSeq), get(mtSeq), 1)
 
-//@ func Keeper.genDenomID
+//@ func Keeper.genDenomID(ctx)
 //@   property C15
 //@   returns id
 //@   requires DSEQ < MAXU64
@@ -158,7 +158,7 @@ package keeper
 //@   ensures id_of_seq: id == ufstr("sprintf_Bytes", "%x", ufbytes("sha256", bytes(ufstr("sprintf_Int", "mt-denom-%d", old(DSEQ)))))
 //@ end
 
-//@ func Keeper.genMTID
+//@ func Keeper.genMTID(ctx)
 //@   property C15
 //@   returns id
 //@   requires MSEQ < MAXU64
@@ -168,7 +168,7 @@ package keeper
 //@   ensures id_of_seq: id == ufstr("sprintf_Bytes", "%x", ufbytes("sha256", bytes(ufstr("sprintf_Int", "mt-%d", old(MSEQ)))))
 //@ end
 
-//@ func Keeper.TransferDenomOwner
+//@ func Keeper.TransferDenomOwner(ctx, denomID, srcOwner, dstOwner)
 //@   property C15
 //@   returns err
 //@   requires has(denoms, denomID) ==> get(denoms, denomID).Id == denomID
@@ -177,7 +177,7 @@ package keeper
 //@   ensures handed: err == nil ==> denoms == set(old(denoms), denomID, with(old(get(denoms, denomID)), "Owner", bech(dstOwner)))
 //@ end
 
-//@ func msgServer.MintMT
+//@ func msgServer.MintMT(goCtx, msg)
 //@   property C15
 //@   returns resp, err
 //@   requires MSEQ < MAXU64
@@ -186,7 +186,7 @@ package keeper
 //@   ensures owner_only: err == nil ==> has(denoms, msg.DenomId) && msg.Sender == get(denoms, msg.DenomId).Owner
 //@ end
 
-//@ func msgServer.EditMT
+//@ func msgServer.EditMT(goCtx, msg)
 //@   property C15
 //@   returns resp, err
 //@   modifies mts
@@ -194,7 +194,7 @@ package keeper
 //@   ensures no_balance_change: balances == old(balances) && supplies == old(supplies)
 //@ end
 
-//@ func msgServer.TransferDenom
+//@ func msgServer.TransferDenom(goCtx, msg)
 //@   property C15
 //@   returns resp, err
 //@   requires has(denoms, msg.Id) ==> get(denoms, msg.Id).Id == msg.Id
@@ -202,7 +202,7 @@ package keeper
 //@   ensures owner_only: err == nil ==> old(has(denoms, msg.Id)) && msg.Sender == old(get(denoms, msg.Id)).Owner
 //@ end
 
-//@ func msgServer.TransferMT
+//@ func msgServer.TransferMT(goCtx, msg)
 //@   property C15
 //@   returns resp, err
 //@   requires inv(msg.DenomId, msg.Id) && SUP(msg.DenomId, msg.Id) <= MAXU64
@@ -211,7 +211,7 @@ package keeper
 //@   ensures sum:  err == nil ==> inv(msg.DenomId, msg.Id)
 //@ end
 
-//@ func msgServer.BurnMT
+//@ func msgServer.BurnMT(goCtx, msg)
 //@   property C15
 //@   returns resp, err
 //@   requires inv(msg.DenomId, msg.Id)
